@@ -81,3 +81,57 @@ Theorem C11_go_iter_more : forall (qlen next nbuckets : N),
   go_iter_more (Z.of_N qlen) (Z.of_N next) (Z.of_N nbuckets) = ((qlen =? 0)%N && (next <? nbuckets)%N).
 Proof. exact iter_more_ok. Qed.
 Print Assumptions C11_go_iter_more.
+
+(* ---- on the PHYSICAL index (PhysIterBackup.v) ---- *)
+From Pogreb Require Import Base BaseLemmas Crc Bytes Record RecordProofs Flat Index Spec DB DBInv
+  DBLemmas DBProofsOps DBMeta DBProofsCompact DBProofsRecovery DBProofsCrash DBSim DBRun DBSimExact
+  Bucket Phys PhysProofs PhysDB DBSimSessions PhysCrash DBProofsIter DBProofsBackup PhysIterBackup.
+Import ListNotations.
+(* a scan of a quiescent database over the physical buckets: every live key exactly once with its value, then done for ever *)
+Theorem C11_quiescent_scan_on_the_physical_index :
+  forall P (s1 : (@DB.st phys)) (sp : (@DB.st pindex)) (sf : (@DB.st flat)) fuel,
+
+  gst_rel PR s1 sp -> st_rel sp sf -> Inv P sf -> s_mem sf <> None ->
+  (length (abs (s_disk sf)) < fuel)%nat ->
+  exists l itf,
+    scan phys_ops fuel s1 dbiter0 = (l, itf) /\
+    Permutation l (abs (s_disk sf)) /\ NoDup (map fst l) /\
+    (forall k v, In (k, v) l <-> sget (abs (s_disk sf)) k = Some v) /\
+    dbiter_step phys_ops s1 itf = Some (itf, None) /\
+    (forall n, outs phys_ops (length l + n) s1 dbiter0 = map Some l ++ repeat None n) /\
+    db_items phys_ops s1 = OItems l /\
+    (* the same calls on the chain database return the same *)
+    scan chain_ops fuel sp dbiter0 = (l, itf).
+Proof. exact C11_quiescent_scan_phys. Qed.
+Print Assumptions C11_quiescent_scan_on_the_physical_index.
+
+(* any interleaving of Next calls with writer steps: the physical-index run returns call by call what the chain-index run returns *)
+Theorem C11_scan_interleaved_equals_chain_scan :
+  forall P (HP : params_ok P) (l : list iact) (s1 : (@DB.st phys)) (sp : (@DB.st pindex)) (sf : (@DB.st flat)) c it,
+
+  gst_rel PR s1 sp -> ok P sp sf c -> isides P l sp sf c ->
+  fst (irun phys_ops P l s1 c it) = fst (irun chain_ops P l sp c it) /\
+  ifin_rel (snd (irun phys_ops P l s1 c it)) (snd (irun chain_ops P l sp c it)).
+Proof. exact phys_iter_interleaved_flat. Qed.
+Print Assumptions C11_scan_interleaved_equals_chain_scan.
+
+(* truthful at return *)
+Theorem C11_truthful_at_return_on_the_physical_index :
+  forall P (HP : params_ok P) s1 sp sf c it ret h hn ws it' k v,
+
+  pscan P s1 sp sf c it ret h hn ws -> dbiter_step phys_ops s1 it = Some (it', Some (k, v)) ->
+  exists sf_t, In sf_t (hn ++ [sf]) /\ sget (abs (s_disk sf_t)) k = Some v.
+Proof. exact C11_truthful_at_return_phys. Qed.
+Print Assumptions C11_truthful_at_return_on_the_physical_index.
+
+(* keys untouched during the scan are returned *)
+Theorem C11_complete_untouched_on_the_physical_index :
+  forall P (HP : params_ok P) s1 sp sf c it ret h hn ws it' k v,
+
+  pscan P s1 sp sf c it ret h hn ws -> dbiter_step phys_ops s1 it = Some (it', None) ->
+  sget (abs (s_disk sf)) k = Some v -> (forall lab, In lab ws -> ~ wl_touches lab k) ->
+  In (k, v) ret.
+Proof. exact C11_complete_untouched_phys. Qed.
+Print Assumptions C11_complete_untouched_on_the_physical_index.
+
+Definition C11_physical_nonvacuous := PhysIBEx.ex_scan_phys.
